@@ -203,6 +203,39 @@ void h_sexp_sub(void) {
   DONE();
 }
 
+/* quotient / remainder of a fixnum by a (normalised) bignum: truncated division x = q*y + rem, |rem| < |y|, rem has the sign of x.
+ * |x| <= 2^62 <= |y|, so q is -1, 0 or 1 and the defining relation needs no wide division. */
+static swide wabs(swide v) { return v < 0 ? -v : v; }
+static void fixbig_operands(sexp *x, sexp *y, sexp b) {
+  in_f = nondet_long(); ASSUME(in_f >= SEXP_MIN_FIXNUM && in_f <= SEXP_MAX_FIXNUM);
+  ASSUME(!sexp_fixnump(sexp_bignum_normalize(b)));
+  *x = sexp_make_fixnum(in_f); *y = b;
+  bn_nt_expect[0] = 1; bn_nt_expect[1] = 3; bn_nt_n = 2;
+}
+void h_sexp_quotient_fixbig(void) {
+  SETUP_CTX(); SETUP_A(); SETUP_B();
+  sexp x, y; fixbig_operands(&x, &y, b);
+  swide vx = bn_val(x), vy = bn_val(y);
+  sexp r = sexp_quotient(ctx, x, y);
+  OBL(sexp_fixnump(r) && sexp_unbox_fixnum(r) >= -1 && sexp_unbox_fixnum(r) <= 1, "sexp_quotient.result: a fixnum in -1..1 (|x| <= |y|)");
+  long q = sexp_unbox_fixnum(r);
+  swide rem = q == 0 ? vx : q == 1 ? vx - vy : vx + vy;
+  OBL(wabs(rem) < wabs(vy) && (rem == 0 || (rem < 0) == (vx < 0)), "sexp_quotient.value: truncated division, x = q*y + rem with |rem| < |y| and rem of the sign of x");
+  DONE();
+}
+void h_sexp_remainder_fixbig(void) {
+  SETUP_CTX(); SETUP_A(); SETUP_B();
+  sexp x, y; fixbig_operands(&x, &y, b);
+  swide vx = bn_val(x), vy = bn_val(y);
+  sexp r = sexp_remainder(ctx, x, y);
+  OBL(sexp_fixnump(r) || IS_BIG(r), "sexp_remainder.result: an exact integer");
+  swide rem = bn_val(r);
+  OBL(wabs(rem) < wabs(vy) && (rem == 0 || (rem < 0) == (vx < 0)), "sexp_remainder.range: |rem| < |y|, rem of the sign of x");
+  OBL(rem == vx || rem == vx - vy || rem == vx + vy, "sexp_remainder.value: x - rem is a multiple q*y of y (q in -1..1 because |x| <= |y|)");
+  OBL(bn_canonical(r), "sexp_remainder.canonical: fixnum iff it fits");
+  DONE();
+}
+
 /* the real sexp_copy_bignum (memset + memmove) against the contract the other groups use */
 #ifndef LEN0
 #define LEN0 0
